@@ -17,7 +17,11 @@ Not decided: which contents a crash image recovers to (needs crash images, not a
 """
 DECIDED = ['successor_is_durable_or_deleted memoises only after its verdict and answers true only behind a durable / memoised / deleted generation', "(a) fsync between device write and acknowledging return", "(b) journal/data/clear/publish order and Ok-guards",
            "(c) flush()/force_flush acknowledgement shape", "(d) retire only after successor durable",
-           "(e) Drop: finish_shutdown before metadata before DiskIO::shutdown"]
+           "(e) Drop: finish_shutdown before metadata before DiskIO::shutdown",
+           'recovery frees an owned extent with the length of the generation whose sector it releases',
+           'every device write is fsynced before the acknowledging return, in the writer or in every caller it was hoisted to',
+           'force_flush waits for the retirement queue on every round; non-blocking acquisitions / sends are an enumerated inventory',
+           'journal slot validity predicate and restored position shared with C03 / C04']
 NOT_DECIDED = ["(f) recovered contents after an arbitrary later crash are not older than acknowledged ones"]
 ASSUMPTIONS = ["fsync on the fd orders all earlier writes on that fd (POSIX)",
                "Record.sector > 0 is the only durability signal (FIELDW instance checks its writers)"]
